@@ -1,0 +1,10 @@
+//go:build verif
+
+package opcua
+
+import "unsafe"
+
+func verifPtr(p any) uintptr {
+	type iface struct{ t, d unsafe.Pointer }
+	return uintptr((*iface)(unsafe.Pointer(&p)).d)
+}
